@@ -4,15 +4,25 @@
   For every configuration, every pre-existing store, every finite history of operations (single and
   batch attestations in any mix, by name or key, keys repeated inside batches, any epochs, any
   domains/roots, injected fetch/store/sign faults with the failed write landed or not, restarts,
-  proposals and generic signing in between) and every key: the attestation signatures released for
-  that key are strictly increasing in target and non-decreasing in source, hence no two of them are
-  a double vote or a surround vote.
+  proposals and generic signing in between, accounts created, locked and unlocked at run time, wallet
+  lock / unlock, slashing-protection import commands with any file between a stop and a start) and every
+  key: the attestation signatures released for that key are strictly increasing in target and
+  non-decreasing in source, hence no two of them are a double vote or a surround vote.
+
+  The only operation of `Op` the histories of `C01` exclude (`NoRawImport`) is the raw rules-level import
+  `Op.importRec` (`importKey`), which OVERWRITES the record of its key and which dirk reaches only through
+  the import command (`Op.importCmd`, `importFile`), which merges raise-only first.  The `…_with_imports`
+  theorems generalise to histories that also contain raw imports, each of which covers what had been
+  released for its key when it is applied (`SafeHist` / `ImportCovers`, Dirk.Model.Instance; implied by the
+  store-level "never lowers" condition `ImportRaises`, Lemmas/OpsExtra.lean).  A raw import below a released
+  signature makes the statement false: `C01_lowering_import_counterexample`.
 
   Only property statements live here; helper lemmas are in Dirk/Lemmas.
 -/
 import Dirk.Lemmas.Run
 import Dirk.Spec.Slashing
 import Dirk.Props.KernelsEq
+import Dirk.Lemmas.SszBinding
 
 namespace Dirk
 open Spec
@@ -28,34 +38,54 @@ theorem votesFor_pairwise {log : List (Bytes × AttData)} (h : LogMono log) (k :
   have hbk : b.1 = k := by simpa using (List.mem_filter.mp hb).2
   exact hab (by rw [hak, hbk])
 
-/-- **C01 (monotone form).** Per key, released attestations strictly increase in target epoch and
-    never decrease in source epoch. -/
-theorem C01_monotone (cfg : Config) (db0 : Db) (ops : List Op) (k : Bytes) :
+/-- generalisation of `C01_monotone` to histories with raw imports that cover what had been released -/
+theorem C01_monotone_with_imports (cfg : Config) (db0 : Db) (ops : List Op) (hs : SafeHist (init cfg db0) ops)
+    (k : Bytes) :
     (votesFor (run (init cfg db0) ops).attLog k).Pairwise (fun a b => a.tgt < b.tgt ∧ a.src ≤ b.src) :=
-  votesFor_pairwise (run_attInv ops _ (init_attInv cfg db0)).mono k
+  votesFor_pairwise (run_attInv_with_imports ops _ (init_attInv cfg db0) hs).mono k
 
 theorem not_slashable_of_lt {a b : Vote} (h : a.tgt < b.tgt ∧ a.src ≤ b.src) :
     ¬ Slashable a b ∧ ¬ Slashable b a := by
   unfold Slashable DoubleVote Surrounds
   constructor <;> (intro hs; rcases hs with ⟨h1, _⟩ | ⟨h1, h2⟩ | ⟨h1, h2⟩ <;> omega)
 
-/-- **C01.** No two attestation signatures released for one key over the whole lifetime of an
-    instance are slashable against each other (double vote or surround, either way round). -/
-theorem C01 (cfg : Config) (db0 : Db) (ops : List Op) (k : Bytes) :
+/-- generalisation of `C01` to histories with raw imports that cover what had been released -/
+theorem C01_with_imports (cfg : Config) (db0 : Db) (ops : List Op) (hs : SafeHist (init cfg db0) ops) (k : Bytes) :
     (votesFor (run (init cfg db0) ops).attLog k).Pairwise
       (fun a b => ¬ Slashable a b ∧ ¬ Slashable b a) :=
-  (C01_monotone cfg db0 ops k).imp not_slashable_of_lt
+  (C01_monotone_with_imports cfg db0 ops hs k).imp not_slashable_of_lt
 
-/-- index form of C01 -/
-theorem C01_index (cfg : Config) (db0 : Db) (ops : List Op) (k : Bytes) (i j : Nat)
+/-- index form of `C01_with_imports` -/
+theorem C01_index_with_imports (cfg : Config) (db0 : Db) (ops : List Op) (hs : SafeHist (init cfg db0) ops)
+    (k : Bytes) (i j : Nat)
     (hi : i < (votesFor (run (init cfg db0) ops).attLog k).length)
     (hj : j < (votesFor (run (init cfg db0) ops).attLog k).length) (hij : i ≠ j) :
     ¬ Slashable ((votesFor (run (init cfg db0) ops).attLog k)[i]) ((votesFor (run (init cfg db0) ops).attLog k)[j]) := by
-  have hp := C01 cfg db0 ops k
+  have hp := C01_with_imports cfg db0 ops hs k
   rw [List.pairwise_iff_getElem] at hp
   rcases Nat.lt_or_gt_of_ne hij with h | h
   · exact (hp i j hi hj h).1
   · exact (hp j i hj hi h).2
+
+/-- **C01 (monotone form).** Per key, released attestations strictly increase in target epoch and
+    never decrease in source epoch. -/
+theorem C01_monotone (cfg : Config) (db0 : Db) (ops : List Op) (k : Bytes) (h : NoRawImport ops) :
+    (votesFor (run (init cfg db0) ops).attLog k).Pairwise (fun a b => a.tgt < b.tgt ∧ a.src ≤ b.src) :=
+  C01_monotone_with_imports cfg db0 ops (safeHist_of_noRawImport ops _ h) k
+
+/-- **C01.** No two attestation signatures released for one key over the whole lifetime of an
+    instance are slashable against each other (double vote or surround, either way round). -/
+theorem C01 (cfg : Config) (db0 : Db) (ops : List Op) (k : Bytes) (h : NoRawImport ops) :
+    (votesFor (run (init cfg db0) ops).attLog k).Pairwise
+      (fun a b => ¬ Slashable a b ∧ ¬ Slashable b a) :=
+  C01_with_imports cfg db0 ops (safeHist_of_noRawImport ops _ h) k
+
+/-- index form of C01 -/
+theorem C01_index (cfg : Config) (db0 : Db) (ops : List Op) (k : Bytes) (h : NoRawImport ops) (i j : Nat)
+    (hi : i < (votesFor (run (init cfg db0) ops).attLog k).length)
+    (hj : j < (votesFor (run (init cfg db0) ops).attLog k).length) (hij : i ≠ j) :
+    ¬ Slashable ((votesFor (run (init cfg db0) ops).attLog k)[i]) ((votesFor (run (init cfg db0) ops).attLog k)[j]) :=
+  C01_index_with_imports cfg db0 ops (safeHist_of_noRawImport ops _ h) k i j hi hj hij
 
 /-- The same statement is **false** of the rule as shipped at the pinned commit (before the
     `fix:` commit): an attestation with target 2^63 is approved, recorded as a negative watermark,
@@ -77,6 +107,119 @@ example : (onAttest (onAttest [] [7] ⟨domAttester, 1, 2⟩ {}).2 [7] ⟨domAtt
   decide
 /-- … and refuses the double vote -/
 example : (onAttest (onAttest [] [7] ⟨domAttester, 1, 2⟩ {}).2 [7] ⟨domAttester, 0, 2⟩ {}).1 = .denied := by
+  decide
+
+/-! ### histories with a live import between two signing operations -/
+
+namespace C01ex
+
+def dom : Bytes := [1, 0, 0, 0] ++ List.replicate 28 0
+def pk : Bytes := List.replicate 48 7
+def acct : Account := { wallet := "w", name := "a", pubkey := pk }
+def cfg : Config :=
+  { accounts := [acct],
+    access := [("c", [{ wallet := .star .any, account := .star .any, ops := ["All"] }])] }
+def data (s t : Nat) : AttData :=
+  { domain := some dom, slot := 0, cidx := 0, bbr := some [], src := s, srcRoot := some [], tgt := t,
+    tgtRoot := some [] }
+def att (s t : Nat) : Op := .att "c" { name := "w/a" } (data s t) {}
+
+theorem pc : preCheck cfg "c" { name := "w/a" } opAttest = .ok acct := by decide
+
+theorem root (s t : Nat) : (data s t).signingRoot = some (Ssz.h2 (Ssz.attRoot (data s t).sszData) dom) :=
+  att_signingRoot_exists _ _ (by show dom.length = 32; decide)
+
+/-- the store after 3→10 has been signed -/
+def db1 : Db := (onAttest [] pk (data 3 10).req {}).2
+/-- the instance after 3→10 has been signed -/
+def s1 : Inst := { cfg := cfg, db := db1, attLog := [(pk, data 3 10)] }
+/-- … and after `r` has then been imported for the key -/
+def s2 (r : Protection) : Inst := { cfg := cfg, db := importKey db1 (toBytes48 pk) r, attLog := [(pk, data 3 10)] }
+
+/-- the first attestation 3→10 is signed -/
+theorem step1 : (step (init cfg []) (att 3 10)).1 = s1 := by
+  have h := signAtt_approved_eq (s := init cfg []) (c := "c") (a := { name := "w/a" }) (d := data 3 10)
+    (f := {}) (acct := acct) (db' := db1) (by decide) pc (by decide) (root 3 10)
+  show (signAtt (init cfg []) "c" { name := "w/a" } (data 3 10) {} false).1 = s1
+  rw [h]; rfl
+
+theorem step2 (r : Protection) : (step s1 (.importRec pk r)).1 = s2 r := rfl
+
+/-- against an imported (3, 12), 4→11 is refused -/
+theorem step3_refused :
+    step (s2 { src := 3, tgt := 12 }) (att 4 11) = (s2 { src := 3, tgt := 12 }, .one ⟨.denied, none⟩) := by
+  have h := signAtt_denied_eq (s := s2 { src := 3, tgt := 12 }) (c := "c") (a := { name := "w/a" })
+    (d := data 4 11) (f := {}) (acct := acct) (db' := (s2 { src := 3, tgt := 12 }).db) (by decide) pc (by decide)
+  show ((signAtt (s2 { src := 3, tgt := 12 }) "c" { name := "w/a" } (data 4 11) {} false).1,
+        Out.one (signAtt (s2 { src := 3, tgt := 12 }) "c" { name := "w/a" } (data 4 11) {} false).2) = _
+  rw [h]
+
+/-- against an imported (0, 5), 4→7 is approved and signed -/
+theorem step3_signed :
+    (step (s2 { src := 0, tgt := 5 }) (att 4 7)).1.attLog = [(pk, data 3 10), (pk, data 4 7)] := by
+  have h := signAtt_approved_eq (s := s2 { src := 0, tgt := 5 }) (c := "c") (a := { name := "w/a" })
+    (d := data 4 7) (f := {}) (acct := acct)
+    (db' := (onAttest (s2 { src := 0, tgt := 5 }).db pk (data 4 7).req {}).2) (by decide) pc (by decide) (root 4 7)
+  show (signAtt (s2 { src := 0, tgt := 5 }) "c" { name := "w/a" } (data 4 7) {} false).1.attLog = _
+  rw [h]; rfl
+
+theorem run3 (r : Protection) (d : Op) :
+    run (init cfg []) [att 3 10, .importRec pk r, d] = (step (s2 r) d).1 := by
+  show (step (step (step (init cfg []) (att 3 10)).1 (.importRec pk r)).1 d).1 = _
+  rw [step1, step2]
+
+end C01ex
+
+/-- non-vacuity of the import case: a history with an import between two attestations that satisfies the
+    hypothesis of `C01_with_imports` (the imported 3→12 covers the released 3→10); the attestation after the
+    import, 4→11, is refused and nothing is logged for it. -/
+example :
+    SafeHist (init C01ex.cfg []) [C01ex.att 3 10, .importRec C01ex.pk { src := 3, tgt := 12 }, C01ex.att 4 11] ∧
+    (step (run (init C01ex.cfg []) [C01ex.att 3 10, .importRec C01ex.pk { src := 3, tgt := 12 }]) (C01ex.att 4 11)).2
+      = .one ⟨.denied, none⟩ ∧
+    (run (init C01ex.cfg []) [C01ex.att 3 10, .importRec C01ex.pk { src := 3, tgt := 12 }, C01ex.att 4 11]).attLog
+      = [(C01ex.pk, C01ex.data 3 10)] := by
+  refine ⟨⟨trivial, ?_, trivial, trivial⟩, ?_, ?_⟩
+  · rw [C01ex.step1]; decide
+  · show (step (step (step (init C01ex.cfg []) (C01ex.att 3 10)).1 (.importRec C01ex.pk _)).1 _).2 = _
+    rw [C01ex.step1, C01ex.step2, C01ex.step3_refused]
+  · rw [C01ex.run3, C01ex.step3_refused]; rfl
+
+/-- a file for the import command that states LESS (source 0, target 5) than what was signed (3→10) -/
+def C01ex.lowFile : IFile :=
+  { metadata := some ("5", "0x" ++ String.ofList (List.replicate 64 '0')),
+    data := [{ pubkey := "0x070707070707070707070707070707070707070707070707070707070707070707070707070707070707070707070707",
+               blocks := [], atts := [("0", "5")] }] }
+
+/-- non-vacuity of the import-command case: a history in which the import command is run with a file
+    holding lower values than what was signed, between two attestations, is a history `C01` speaks about
+    (the command merges raise-only, so no hypothesis on the file is needed). -/
+example : NoRawImport [C01ex.att 3 10, .importCmd ("0x" ++ String.ofList (List.replicate 64 '0')) C01ex.lowFile, C01ex.att 4 7] := by
+  decide
+
+example :
+    (votesFor (run (init C01ex.cfg [])
+        [C01ex.att 3 10, .importCmd ("0x" ++ String.ofList (List.replicate 64 '0')) C01ex.lowFile, C01ex.att 4 7]).attLog
+      C01ex.pk).Pairwise (fun a b => ¬ Slashable a b ∧ ¬ Slashable b a) :=
+  C01 _ _ _ _ (by decide)
+
+/-- **With a raw import below a released signature the statement is false.**  3→10 is signed; a raw import
+    (`Op.importRec`, not the import command) then states source 0,
+    target 5 for the key (the record is overwritten, not merged); 4→7 is then approved and signed, and
+    3→10 surrounds 4→7. -/
+theorem C01_lowering_import_counterexample :
+    ∃ (cfg : Config) (ops : List Op) (k : Bytes),
+      ¬ (votesFor (run (init cfg []) ops).attLog k).Pairwise (fun a b => ¬ Slashable a b ∧ ¬ Slashable b a) := by
+  refine ⟨C01ex.cfg, [C01ex.att 3 10, .importRec C01ex.pk { src := 0, tgt := 5 }, C01ex.att 4 7], C01ex.pk, ?_⟩
+  rw [C01ex.run3, C01ex.step3_signed]
+  decide
+
+/-- … and that history is indeed not safe -/
+example : ¬ SafeHist (init C01ex.cfg []) [C01ex.att 3 10, .importRec C01ex.pk { src := 0, tgt := 5 }, C01ex.att 4 7] := by
+  intro h
+  have := h.2.1
+  rw [C01ex.step1] at this
+  revert this
   decide
 
 /-- **tie by translation.** The check function the theorems above are about is, for all inputs, the function
